@@ -97,6 +97,11 @@ where
         if self.in_mixed() {
             return 0;
         }
+        // no whitespace may be added inside the scope of xml:space="preserve",
+        // whatever the depth at which that scope starts
+        if self.in_space_preserve() {
+            return 0;
+        }
         let mut count = 0;
         let mut in_preserve = false;
         for entry in self.stack.iter() {
@@ -178,7 +183,8 @@ where
             }
             EndTag(_) => {
                 let indentation = if self.xot.first_child(node).is_some() {
-                    let no_indentation = self.in_mixed();
+                    // the end tag of an element is still inside its own scope
+                    let no_indentation = self.in_mixed() || self.in_space_preserve();
                     self.pop();
                     if !no_indentation {
                         self.get_indentation()
